@@ -338,7 +338,7 @@ func (p *printer) addSourceMapping(loc logger.Loc) {
 
 func (p *printer) addSourceMappingForName(loc logger.Loc, name string, ref ast.Ref) {
 	if p.options.AddSourceMappings {
-		if originalName := p.symbols.Get(ast.FollowSymbols(p.symbols, ref)).OriginalName; originalName != name {
+		if originalName := p.symbols.Get(ref).OriginalName; originalName != name {
 			p.builder.AddSourceMapping(loc, originalName, p.js)
 		} else {
 			p.builder.AddSourceMapping(loc, "", p.js)
